@@ -118,7 +118,7 @@ class DynamicSchedulePass( BasePass ):
             raise UpblkCyclicError("update_once blocks are not allowed to appear in a cycle. \n - " + \
                             "\n - ".join( [
                               f"{y.__name__} ({'@update_once' if y in onces else '@update'} " \
-                              f"in 'top.{repr(top.get_update_block_host_component(y))[2:]}')"
+                              f"in 'top.{repr(top._dsl.all_upblk_hostobj[y])[2:] if y in top._dsl.all_upblk_hostobj else '<generated net block>'}')"
                               for y in scc] ))
 
         tmp_schedule = []
